@@ -27,7 +27,7 @@ def declare(reg):
     reg.classdef(
         "BaseClientHandler",
         {"client": "ref:ClientProxy", "mbox": "opt[ref:Mailbox]", "server": "opt[ref:IMAPUserServer]", "state": "enum:ClientState",
-         "tag": "opt[str]", "name": "str"},
+         "tag": "opt[str]", "name": "str", "pending_notifications": "list[str]"},
         path="asimap/client.py",
     )
     reg.union("HandlerResult", ["None", "bool", "str"])
@@ -85,6 +85,7 @@ def declare(reg):
             "ready": "ref:Event",
             "timeout_cm": "opt[opaque:Timeout]",
             "user_name": "str",
+            "input": "str",
             "password": "str",
         },
         path="asimap/parse.py",
